@@ -483,8 +483,30 @@ def extAsLen (x : Ext) : Except BErr Len :=
   | .fin q => .ok (some q)
   | _ => .error (.unsupported "min_max:non-finite-max")
 
-/-- `min_max.py` `handle_min_max_width(function)`: the wrapper, for an arbitrary wrapped `function`. -/
+/-- `min_max.py` `handle_min_max_width(function)`: the wrapper, for an arbitrary wrapped `function`.
+`position_x = getattr(box, 'position_x', None)` is read before the first pass and written back before each
+further pass (`if position_x is not None: box.position_x = position_x`): the wrapped function may shift the
+box (`block_level_width` in an rtl containing block) and must not shift it twice.  (`ABox.posX` is always
+a number; a box that has no `position_x` attribute yet is `handleMinMaxWidthNoX`.) -/
 def handleMinMaxWidth (function : ABox → Except BErr ABox) (box : ABox) : Except BErr ABox := do
+  let computedMargins := (box.ml, box.mr)
+  let positionX := box.posX
+  let box ← function box
+  let width ← widthOf box
+  let box ← (if box.maxW.ltRat width then do          -- if box.width > box.max_width
+      let w ← extAsLen box.maxW
+      function { box with w := w, ml := computedMargins.1, mr := computedMargins.2, posX := positionX }
+    else pure box)
+  let width ← widthOf box
+  let box ← (if width < box.minW then                 -- if box.width < box.min_width
+      function { box with w := some box.minW, ml := computedMargins.1, mr := computedMargins.2,
+                          posX := positionX }
+    else pure box)
+  pure box
+
+/-- `handle_min_max_width` on a box that has no `position_x` attribute (`getattr(box, 'position_x', None)`
+is `None`): nothing is written back, `posX` stands for whatever the wrapped function keeps there. -/
+def handleMinMaxWidthNoX (function : ABox → Except BErr ABox) (box : ABox) : Except BErr ABox := do
   let computedMargins := (box.ml, box.mr)
   let box ← function box
   let width ← widthOf box
@@ -498,8 +520,8 @@ def handleMinMaxWidth (function : ABox → Except BErr ABox) (box : ABox) : Exce
     else pure box)
   pure box
 
-/-- `min_max.py` `handle_min_max_height(function)` (same text with height / top / bottom; fields of
-`ABox` are read as the vertical ones). -/
+/-- `min_max.py` `handle_min_max_height(function)` (the text of the width wrapper with height / top /
+bottom, without the `position_x` bookkeeping; fields of `ABox` are read as the vertical ones). -/
 def handleMinMaxHeight (function : ABox → Except BErr ABox) (box : ABox) : Except BErr ABox := do
   let computedMargins := (box.ml, box.mr)
   let box ← function box
